@@ -30,6 +30,8 @@ RULE = ('case = (recipe or stack of 1..3 recipes, argument variant, source '
         'reached. Non-trivial: construction succeeded, a consumer obtained '
         'at least one data row and (streaming recipes) the short source was '
         'not exhausted. Distinct: by digest of the whole case.')
+STATES = ('recipe stack (or extractor) x streaming kind x sorted tuple of '
+          'consumer kinds')
 COMPONENTS = {
     'real': ['petl views, look/see/_repr_html_/head/islice consumers, '
              'csv/pickle/text/json-lines readers, TextIOWrapper'],
@@ -544,6 +546,8 @@ def run_case(case):
         nontrivial = any(d > 0 for d, _ in res1.values())
         return outcome('ok', digest=log.hexdigest(), probes=probes,
                        nontrivial=nontrivial, steps=len(case['order']),
+                       states=['%s:%s:%s' % (label, kind, ','.join(sorted(
+                           c['kind'] for c in case['consumers'])))],
                        extra={'group': group})
     except _Bad as b:
         sig['vclass'] = b.vclass
